@@ -137,9 +137,6 @@ package auparse
 //@ func (*auparse.AuditMessage).auditRuleKeyNew
 //@ requires data != nil
 //@ modifies m.tags, mapOf(data), alloc
-//@ func (*auparse.AuditMessage).enrichData
-//@ requires data != nil
-//@ modifies m.tags, mapOf(data), alloc
 
 // Data(): parses once and caches; later calls return the cached pair and write nothing.
 //@ func (*auparse.AuditMessage).Data
@@ -205,3 +202,10 @@ package auparse
 //@ loop 0 invariant[C12] 0 <= i && i <= len(src) / 2
 //@ loop 0 invariant[C12] forall k int :: lo(src) <= k && k < lo(src) + 2 * i ==> isHexUp(at(src, k))
 //@ loop 0 invariant[C12] forall k int :: lo(dst) <= k && k < lo(dst) + i ==> at(dst, k) == 16 * hexVal(at(src, lo(src) + 2 * (k - lo(dst)))) + hexVal(at(src, lo(src) + 2 * (k - lo(dst)) + 1))
+
+// enrichData: the absence of a hex-decoded key (its value was a placeholder
+// and has been dropped) is not an error (C12: only placeholder values are dropped).
+//@ func (*auparse.AuditMessage).enrichData
+//@ requires data != nil
+//@ modifies m.tags, mapOf(data), alloc
+//@ ensures[C12] m.RecordType == AUDIT_PROCTITLE || m.RecordType == AUDIT_USER_CMD || m.RecordType == AUDIT_TTY || m.RecordType == AUDIT_USER_TTY || m.RecordType == AUDIT_PATH || m.RecordType == AUDIT_USER_LOGIN || m.RecordType == AUDIT_CWD ==> isNil(result0)
